@@ -104,6 +104,32 @@ def run_sample(gam, scn, quantity, Xq, nd, D, fam):
     return np.asarray(out), rec
 
 
+POISSON_LAM_MAX = float(np.iinfo(np.int64).max - np.sqrt(np.iinfo(np.int64).max) * 10)     # numpy's documented limit of np.random.poisson
+
+
+def generator_domain_error(fam, gam, mu):
+    """does NumPy's primitive of this family refuse these means by its own documented domain check?  (reason or None)
+    poisson: lam > ~9.22e18 or NaN or < 0; binomial: p = mu/levels outside [0,1] or NaN; gamma: scale = mu*scale < 0;
+    wald: mean <= 0 (exp underflow); normal: never"""
+    mu = np.asarray(mu, dtype=float)
+    if fam == 'DPoisson':
+        if np.isnan(mu).any() or (mu < 0).any():
+            return 'np.random.poisson: lam NaN or negative'
+        if (mu > POISSON_LAM_MAX).any():
+            return 'np.random.poisson: lam > %.4g' % POISSON_LAM_MAX
+    elif fam == 'DBinomial':
+        p = mu / float(getattr(gam.distribution, 'levels', 1) or 1)
+        if not ((p >= 0) & (p <= 1)).all():
+            return 'np.random.binomial: p outside [0,1] or NaN'
+    elif fam == 'DGamma':
+        if (mu < 0).any():
+            return 'np.random.gamma: scale < 0'
+    elif fam == 'DInvGauss':
+        if (mu <= 0).any():
+            return 'np.random.wald: mean <= 0'
+    return None
+
+
 def viol(res, what, d, observed, expected, finding=None, **extra):
     res.violations.append(dict(what=what, finding=finding, input=dict(d, **extra), observed=observed, expected=expected))
 
@@ -384,12 +410,26 @@ def run(res):
             nd = rng.choice([1, 2, 7])
             Xq = query_rows(rng, scn, rng.choice([1, 2, 5]))[0] if rng.random() < 0.5 else None
             state = np.random.get_state()
+            npseed = rng.randrange(1 << 30)
             try:
-                np.random.seed(rng.randrange(1 << 30))
+                np.random.seed(npseed)
                 with np.errstate(all='ignore'):
                     out = np.asarray(gam.sample(scn['X'], scn['y'], quantity=quantity, sample_at_X=Xq, n_draws=nd, n_bootstraps=1))
             except Exception as e:
-                viol(res, 'sample raised %s on valid arguments (real generator)' % type(e).__name__, dict(d, quantity=quantity, n_draws=nd), repr(e), 'draws')
+                reason = None
+                if quantity == 'y' and isinstance(e, ValueError):
+                    # the same seed reproduces the same coefficient draws, hence the means the family primitive was given
+                    try:
+                        np.random.seed(npseed)
+                        with np.errstate(all='ignore'):
+                            mus = gam.sample(scn['X'], scn['y'], quantity='mu', sample_at_X=Xq, n_draws=nd, n_bootstraps=1)
+                        reason = generator_domain_error(fam, gam, mus)
+                    except Exception:
+                        reason = None
+                if reason is not None:
+                    res.count('generator domain error, skipped (%s)' % reason)
+                    continue
+                viol(res, 'sample raised %s on valid arguments (real generator)' % type(e).__name__, dict(d, quantity=quantity, n_draws=nd, numpy_seed=npseed), repr(e), 'draws')
                 continue
             finally:
                 np.random.set_state(state)
